@@ -31,7 +31,7 @@ def main():
                     shutil.copy(os.path.join(src, f), os.path.join(wt, demo_rel))
                 else:
                     shutil.copy(os.path.join(src, f), wt)
-        demo_cmd = demo_cmd.replace(f"/tmp/mut/{meta['property']}", wt).replace(f"/tmp/mutc/{meta['property']}", wt)
+        demo_cmd = demo_cmd.replace(f"/tmp/mut/{meta['property']}", wt).replace(f"/tmp/mutc/{meta['property']}", wt).replace(f"/tmp/mutd/{meta['property']}", wt)
         import shlex
         demo_cmd = "timeout 900 bash -c " + shlex.quote(demo_cmd)
         rc0, out0 = run(demo_cmd, wt, env)
